@@ -16,7 +16,7 @@ struct StringRun {
 
     explicit StringRun(Run& r) : R(r), a(0), b(0) {
         R.apiClass = "XalanDOMString";
-        a = new S(R.mm); b = new S(R.mm);
+        a = new S(R.mm); b = new S(R.mmB());
         const int cap = (int)(R.plan.at("knobs").num("cap", 0) & 15);
         if (cap) a->reserve((sz)cap);
         R.snapshot = [this] { Json o = Json::object(); o["op"] = "force_state"; o["a"] = jsonStr(ma); o["b"] = jsonStr(mb); return o; };
